@@ -256,6 +256,8 @@ func corruptBase64(r *Rng, b []byte) (text string, stillSame bool) {
 
 // ---- generator ----
 
+func jsonTrailingGarbage() []string { return []string{"}", ",", " 1", "{}", "null", " x", "]", "\n{\"data\":\"AQ==\"}"} }
+
 func genC19J(c *Ctx) {
 	c.rule = "JSON text layer against the model (exact bytes of json.Marshal; outcome and value of json.Unmarshal): valid blobs v0/v1 with data lengths in all three base64 padding classes, shares and namespaces; the acceptance product {namespace version} x {id} x {data} x {share version} x {signer absent / null / empty / 19 / 20 / 21} as JSON texts; texts inside the model's subset with reordered members, unknown members, white space, folded key case, null values, duplicate keys, malformed base64, every number form, type confusion, structural errors, truncation and single-byte mutation; non-trivial = distinct (family, expectation, outcome) or distinct acceptance tuple"
 	r := c.rng
@@ -265,6 +267,15 @@ func genC19J(c *Ctx) {
 	// sendBlobText: one text for Blob.UnmarshalJSON.  want: "same" (must decode to g), "reject", "any"
 	sendBlobText := func(family, text, want string, g *genBlob) {
 		t := []byte(text)
+		{
+			// the method called DIRECTLY (encoding/json validates the whole text before it calls the method; a
+			// direct caller has no such filter) must accept and refuse the same texts, with the same value
+			var viaJSON, direct share.Blob
+			jerr := json.Unmarshal(t, &viaJSON)
+			derr := direct.UnmarshalJSON(t)
+			c.check((derr == nil) == (jerr == nil) && (jerr != nil || showBlob(&direct) == showBlob(&viaJSON)), "Blob.UnmarshalJSON",
+				"called directly it does not accept exactly what json.Unmarshal accepts", map[string]any{"family": family, "text_md5": digestList([][]byte{t})})
+		}
 		c.add("jsonsubset", hx(t))
 		if !jsonInSubset(t) {
 			if want != "any" {
@@ -314,6 +325,12 @@ func genC19J(c *Ctx) {
 			want := renderMembers(blobMembers(g), noSpace)
 			c.check(string(js) == want, "Blob.MarshalJSON", "text differs from the hand-rendered object", wit)
 			sendBlobText("canonical", string(js), "same", &g)
+			if i%5 == 0 {
+				// a complete valid object followed by more bytes is not a JSON document
+				for _, tail := range jsonTrailingGarbage() {
+					sendBlobText("trailing_bytes", string(js)+tail, "any", &g)
+				}
+			}
 		}
 		c.add("b64enc", hx(g.data))
 		c.add("b64dec", hx([]byte(base64.StdEncoding.EncodeToString(g.data))))
